@@ -104,6 +104,13 @@ fn dump<'tcx>(tcx: TyCtxt<'tcx>, name: &str) -> String {
         let k = tcx.def_kind(def);
         match k {
             DefKind::Fn | DefKind::AssocFn | DefKind::Closure => {}
+            // named constants: their initialiser is a body too (evaluated by the analyses where a function uses the constant)
+            DefKind::Const { .. } | DefKind::AssocConst { .. } => {
+                // `const _: () = ..` items (derive / static assertions) have no name to refer to
+                if tcx.opt_item_name(def.to_def_id()).map_or(true, |n| n.as_str() == "_") {
+                    continue;
+                }
+            }
             _ => continue,
         }
         if let Some(f) = dump_fn(tcx, def, &mut stolen) {
@@ -567,6 +574,13 @@ fn dump_fn<'tcx>(tcx: TyCtxt<'tcx>, def: LocalDefId, stolen: &mut usize) -> Opti
             o.set("trait_default_of", J::s(&tcx.def_path_str(tr)));
         }
         o.set("name", J::s(tcx.item_name(did).as_str()));
+    } else if matches!(tcx.def_kind(did), DefKind::Const { .. } | DefKind::AssocConst { .. }) {
+        o.set("pub", J::b(tcx.visibility(did).is_public()));
+        o.set("name", J::s(tcx.item_name(did).as_str()));
+        if let Some(im) = tcx.impl_of_assoc(did) {
+            let st = tcx.type_of(im).instantiate_identity().skip_norm_wip();
+            o.set("impl_self", J::s(&ty_s(st)));
+        }
     } else {
         // closure: parent and captures
         let parent = tcx.typeck_root_def_id(did);
